@@ -119,7 +119,7 @@ static void exec(const plan_t *p)
                 if (isnew) made = spif_mbuff_new_from_fp(fp); else ok = spif_mbuff_init_from_fp(self, fp);
                 fclose(fp);
                 m_set(m, o->s + pos, o->slen - pos);
-                may_fail = (o->slen - pos == 0) || (seekable && pos > 0);      /* B.2: empty source / non-zero position: value DC */
+                may_fail = (o->slen - pos == 0);      /* B.2: empty source: return value DC */
                 probe_hit(seekable ? (pos ? "fp_seekable_nonzero_pos" : "fp_seekable") : "fp_streaming");
                 if (!seekable && o->slen == 4096) probe_hit("stream_exactly_4096");
             } else if (!strcmp(what, "_fd")) {
@@ -133,7 +133,7 @@ static void exec(const plan_t *p)
                 if (isnew) made = spif_mbuff_new_from_fd(fd); else ok = spif_mbuff_init_from_fd(self, fd);
                 delivered = simfd_src_pos(0, fd) - pos;
                 simfd_close_harness(0, fd);
-                if (seekable) { m_set(m, o->s + pos, o->slen - pos); may_fail = (o->slen - pos == 0) || pos > 0; probe_hit("fd_regular_file"); }
+                if (seekable) { m_set(m, o->s + pos, o->slen - pos); may_fail = (o->slen - pos == 0); probe_hit("fd_regular_file"); }
                 else {
                     if (delivered != o->slen && !simfd_hard_error) {
                         if (made && isnew) { objs[s] = made; }
